@@ -124,6 +124,8 @@ def body_lists(ch, ctx):
     feats, objs = [], []
     for i, ((s, e), seqid, strand) in enumerate(chosen):
         attrs = {"ID": ["x%d" % i], "Parent": ["t1"], "num": [str(10 - i)], "tag": ["v%d" % (i % 2)], "lvl": ["2", "10"]}
+        if i % 2 == 0:
+            attrs["only_here"] = ["zeta", "alpha", "zeta", "9", "10"]       # on every other feature only
         ft = ("exon", "CDS")[i % 2]
         feats.append(dict(seqid=seqid, start=s, end=e, strand=strand, ft=ft, attrs=attrs))
         objs.append(gffutils.Feature(seqid=seqid, source="s", featuretype=ft, start=s, end=e, strand=strand,
